@@ -96,6 +96,8 @@ def late_grandchild():
 def errors(kind='ValueError', where='parent', sync=False, after_sleep=True, ret_exc=False):
     """a raising handler (or one returning an exception object) placed as parent / awaited child / ff child; other events in flight."""
     boom = ([['sleep', 'd1']] if (after_sleep and not sync) else []) + ([['ret_exc', kind]] if ret_exc else [['raise', kind]])
+    if kind == 'InnerTimeout':
+        boom = [['inner_timeout', 'd1']]
     ok = [['ret', 'ok']]
     handlers = [['A', 'L', 'hL', [['ret', 'l']]], ['A', 'X', 'hX', [['ret', 'x']]]]
     if where == 'parent':
@@ -213,7 +215,7 @@ def perms(names):
 
 
 # =========================================================================== feature matrix M1
-P_KINDS = ('sleep', 'raise', 'sync_raise', 'sync_ret', 'ff', 'ff_raise', 'await', 'await_then', 'sleep_ff')
+P_KINDS = ('sleep', 'raise', 'sync_raise', 'sync_ret', 'ff', 'ff_raise', 'await', 'await_then', 'sleep_ff', 'ff_await')
 C_KINDS = ('ret', 'sleep', 'raise', 'two', 'awaitG')
 WILD = ('none', 'A', 'B-only')
 MAINS = ('await', 'redispatch')
@@ -233,6 +235,7 @@ def _p_script(kind, i):
         'await': ([['sleep', dv], ['dispawait', 'A', 'C', 'C_{inv}'], ['ret', r]], {}),
         'await_then': ([['dispawait', 'A', 'C', 'C_{inv}'], ['disp', 'A', 'L', 'L_{inv}'], ['sleep', dv], ['ret', r]], {}),
         'sleep_ff': ([['sleep', dv], ['disp', 'A', 'C', 'C_{inv}'], ['read_bus'], ['ret', r]], {}),
+        'ff_await': ([['sleep', dv], ['disp', 'A', 'C', 'C_{inv}'], ['disp', 'A', 'L', 'L_{inv}'], ['await', 'C_{inv}'], ['ret', r]], {}),
     }[kind]
 
 
@@ -324,7 +327,7 @@ def pairwise(domains, must=()):
 
 PH_PAIRS = (('sleep', 'sleep'), ('raise', 'sleep'), ('sleep', 'raise'), ('sync_raise', 'sleep'), ('await', 'sleep'), ('await', 'raise'),
             ('await_then', 'sleep'), ('await_then', 'sync_ret'), ('ff', 'sleep'), ('ff_raise', 'sleep'), ('sleep_ff', 'sleep_ff'),
-            ('sleep_ff', 'raise'), ('await', 'sleep_ff'), ('ff', 'ff_raise'), ('raise', 'sync_ret'), ('await_then', 'raise'))
+            ('sleep_ff', 'raise'), ('await', 'sleep_ff'), ('ff', 'ff_raise'), ('raise', 'sync_ret'), ('await_then', 'raise'), ('ff_await', 'sleep'))
 
 
 def matrix1_rows(tier):
@@ -337,6 +340,9 @@ def matrix1_rows(tier):
         (False, ('await', 'sleep'), 'awaitG', 'A', 'await', '60'),
         (False, ('sleep', 'sleep'), 'ret', 'B-only', 'await', '60'),
         (True, ('await', 'sleep'), 'sleep', 'B-only', 'await', '60'),
+        (True, ('await', 'sleep'), 'two', 'none', 'await', '60'),
+        (False, ('ff_await', 'sleep'), 'ret', 'none', 'await', '60'),
+        (False, ('ff_await', 'sleep'), 'sleep', 'A', 'await', '60'),
     ]
     rows = pairwise(doms, must)
     if tier == 'thorough':
@@ -430,3 +436,53 @@ def matrix2_rows(tier):
             if (r[3] in ('awaitG', 'ffG') or r[4] == 'ret') and r not in rows:
                 rows.append(r)
     return rows
+
+
+
+def deep_ff_chain():
+    """P's handler awaits C; C's handler fire-and-forgets G; G's handler fire-and-forgets L (slow): the awaited child is complete
+    only when the whole un-awaited chain below it is."""
+    handlers = [['A', 'P', 'hP', [['sleep', 'd1'], ['dispawait', 'A', 'C', 'C1'], ['ret', 'p']]],
+                ['A', 'C', 'hC', [['disp', 'A', 'G', 'G1'], ['ret', 'c']]],
+                ['A', 'G', 'hG', [['disp', 'A', 'L', 'L1'], ['sleep', 'd2'], ['ret', 'g']]],
+                ['A', 'L', 'hL', [['sleep', 'd3'], ['ret', 'l']]]]
+    main = [['root', 'A', 'P', 'P1'], ['await', 'P1'], ['idle', 'A'], ['obs_all', 'end']]
+    return dict(buses=['A'], reals={'d1': ['0', '1/5'], 'd2': ['0', '1/5'], 'd3': ['0', '1/5']}, handlers=handlers, main=main, horizon=5)
+
+
+def fw_evict(order=('D', 'A', 'B', 'C')):
+    """a handler on D awaits P dispatched to A (forwarded A->B->C) and then floods B (max_history_size=3) with noise before B's
+    run loop gets to the forwarded event: the forwarded, already 'completed' event is evicted from B's history while still queued."""
+    handlers = [['D', 'X', 'hD', [['dispawait', 'A', 'P', 'P1'], ['disp', 'B', 'L', 'L0'], ['disp', 'B', 'L', 'L1'], ['disp', 'B', 'L', 'L2'],
+                                  ['disp', 'B', 'L', 'L3'], ['sleep', 'd1'], ['ret', 'd']]],
+                ['A', 'P', 'hA', [['ret', 'a']]], ['B', 'P', 'hB', [['sleep', 'd2'], ['ret', 'b']]], ['C', 'P', 'hC', [['ret', 'c']]],
+                ['B', 'L', 'hLB', [['ret', 'l']]]]
+    main = [['root', 'D', 'X', 'X1'], ['idle', 'D'], ['idle', 'A'], ['idle', 'B'], ['idle', 'C'], ['obs_all', 'end']]
+    return dict(buses=['D', 'A', 'B', 'C'], order=list(order), reals={'d1': ['0', '1/5'], 'd2': ['0', '1/5']}, handlers=handlers,
+                forwards=[['A', 'B'], ['B', 'C']], main=main, max_history={'B': 3}, horizon=6)
+
+
+def par_await_two_later():
+    """parallel bus: a handler awaits a child that has a failing and a slow handler; an unrelated event arrives during the await."""
+    handlers = [['A', 'P', 'hP', [['dispawait', 'A', 'C', 'C1'], ['ret', 'p']]],
+                ['A', 'C', 'hC0', [['sleep', 'd2'], ['ret', 'c']]], ['A', 'C', 'hC1', [['sleep', 'd1'], ['raise', 'ValueError']]],
+                ['A', 'X', 'hX', [['ret', 'x']]]]
+    main = [['root', 'A', 'P', 'P1'], ['await', 'P1'], ['idle', 'A'], ['obs_all', 'end']]
+    return dict(buses=['A'], parallel=['A'], reals={'d1': ['0', '1/5'], 'd2': ['0', '3/10'], 't_x': ['0', '3/10']}, handlers=handlers, main=main,
+                actors={'x': [['sleep', 't_x'], ['root', 'A', 'X', 'X1']]}, horizon=5)
+
+
+def idle_other_bus(order=('A', 'B')):
+    """wait_until_idle(B) called by an external task at t_w while a handler of A processes its awaited child inline on B
+    (B has been idle before)."""
+    cfg = two_bus_await('other_running', order, yield_first=False)
+    cfg['reals']['t_w'] = ['0', '1/2']
+    cfg['actors'] = {'w': [['sleep', 't_w'], ['idle', 'B']]}
+    return cfg
+
+
+def flood_idle():
+    """a burst larger than the queue onto a bus with a small history limit (rejections swallowed), then wait_until_idle()."""
+    handlers = [['A', 'C', 'hC', [['ret', 'c']]]]
+    main = [['burst_swallow', 'A', 'C', 'n', 'C'], ['idle', 'A'], ['obs_all', 'end']]
+    return dict(buses=['A'], ints={'n': [48, 53]}, reals={}, handlers=handlers, main=main, max_history={'A': 10}, horizon=5, rejections_expected=True)
